@@ -6,7 +6,7 @@ set -u
 export VERIF_EVIDENCE_DIR=/verif/harness/target/scratch-evidence  # never overwrite committed evidence with results from a broken tree
 ID=$1; N=$2; shift 2
 CHECKS="${*:-$ID}"
-OUT=/tmp/seed/out/$ID; WT=/tmp/seed/$ID
+ROOT=${SEEDROOT:-/tmp/seed}; OUT=$ROOT/out/$ID; WT=$ROOT/$ID
 FEAT=""
 grep -qiE "features?[^a-z]*(serde|uuid|storage-event|derive)|--features" $OUT/demo$N.rs 2>/dev/null && FEAT='--features serde,uuid_entity,storage-event-control,derive'
 grep -q "specs_derive\|specs-derive\|derive(ConvertSaveload\|derive(Component" $OUT/demo$N.rs 2>/dev/null && FEAT='--features serde,uuid_entity,storage-event-control,derive'
@@ -16,9 +16,9 @@ git apply $OUT/patch$N.diff || { echo "CONFIRM: patch does not apply"; exit 2; }
 T=$(cargo test --workspace --offline 2>&1 | grep -E "^test result" | awk '{p+=$4; f+=$6} END {print p" passed "f" failed"}')
 echo "CONFIRM: existing suite with change: $T"
 cp $OUT/demo$N.rs tests/seed_demo.rs
-if cargo test --offline $FEAT --test seed_demo >/tmp/seed/out/$ID/demo$N.with.log 2>&1; then echo "CONFIRM: demo PASSES with change (BAD)"; else echo "CONFIRM: demo fails with change (ok): $(grep -E 'panicked|test result|error\[' /tmp/seed/out/$ID/demo$N.with.log | head -2 | tr '\n' ' ' | cut -c1-200)"; fi
+if cargo test --offline $FEAT --test seed_demo >$OUT/demo$N.with.log 2>&1; then echo "CONFIRM: demo PASSES with change (BAD)"; else echo "CONFIRM: demo fails with change (ok): $(grep -E 'panicked|test result|error\[' $OUT/demo$N.with.log | head -2 | tr '\n' ' ' | cut -c1-200)"; fi
 git apply -R $OUT/patch$N.diff
-if cargo test --offline $FEAT --test seed_demo >/tmp/seed/out/$ID/demo$N.without.log 2>&1; then echo "CONFIRM: demo passes without change (ok)"; else echo "CONFIRM: demo FAILS without change (BAD)"; fi
+if cargo test --offline $FEAT --test seed_demo >$OUT/demo$N.without.log 2>&1; then echo "CONFIRM: demo passes without change (ok)"; else echo "CONFIRM: demo FAILS without change (BAD)"; fi
 rm -f tests/seed_demo.rs; git checkout -q -- .
 cd /repo || exit 2
 git diff --quiet || { echo "repo dirty"; exit 2; }
@@ -27,4 +27,4 @@ for c in $CHECKS; do
   /verif/verif.sh $c quick 2>/dev/null | grep -E "VIOLATION|INCONCLUSIVE|evaluations=|^C[0-9]+ /" | cut -c1-260 | sort | uniq -c | sort -rn | head -4
 done
 git checkout -q -- .
-mkdir -p /verif/seeded/$ID-$N
+
